@@ -307,74 +307,13 @@ fn fixed_batches(rows: &[Row], k: usize) -> Vec<Vec<Vec<Row>>> {
     vec![rows.chunks(k).map(|c| c.to_vec()).collect()]
 }
 
-fn key_eq(ne: bool, a: &[Option<i64>], b: &[Option<i64>]) -> bool {
-    a.iter().zip(b).all(|(x, y)| match (x, y) {
-        (Some(x), Some(y)) => x == y,
-        (None, None) => ne,
-        _ => false,
-    })
-}
-
-impl Input {
-    fn matches(&self, l: &Row, r: &Row) -> bool {
-        key_eq(self.ne, &l[..self.nkeys], &r[..self.nkeys]) && (!self.filter || matches!((l[2], r[2]), (Some(x), Some(y)) if x < y))
-    }
-    /// what the right-side final stage of a nested loop join emits (`need_produce_right_in_final`)
-    fn right_final_rows(&self) -> Vec<String> {
-        let matched = |r: &Row| self.l.iter().any(|l| self.matches(l, r));
-        let pad = |r: &Row| {
-            let mut v: Row = vec![None, None, None];
-            v.extend_from_slice(r);
-            show_row(&v)
-        };
-        match self.jt {
-            JoinType::Right | JoinType::Full => self.r.iter().filter(|r| !matched(r)).map(pad).collect(),
-            JoinType::RightAnti => self.r.iter().filter(|r| !matched(r)).map(|r| show_row(r)).collect(),
-            JoinType::RightSemi => self.r.iter().filter(|r| matched(r)).map(|r| show_row(r)).collect(),
-            JoinType::RightMark => self
-                .r
-                .iter()
-                .map(|r| {
-                    let mut v = r.clone();
-                    v.push(Some(matched(r) as i64));
-                    show_row(&v)
-                })
-                .collect(),
-            _ => vec![],
-        }
-    }
-}
-
-fn bag_rows(b: &str) -> Vec<String> {
-    if b == "-" { vec![] } else { b.split(';').map(|s| s.to_string()).collect() }
-}
-
-/// `got` = `want` minus exactly the rows of the right-side final stage (and that stage is non-empty)
-fn lost_exactly_right_final(inp: &Input, got: &str, want: &str) -> bool {
-    let mut fin = inp.right_final_rows();
-    if fin.is_empty() {
-        return false;
-    }
-    let mut expect: Vec<String> = bag_rows(want);
-    for f in fin.drain(..) {
-        match expect.iter().position(|x| *x == f) {
-            Some(i) => {
-                expect.remove(i);
-            }
-            None => return false,
-        }
-    }
-    expect.sort();
-    expect == bag_rows(got)
-}
-
 fn is_resources(e: &str) -> bool {
     e.contains("Resources exhausted") || e.contains("ResourcesExhausted") || e.contains("Failed to allocate") || e.contains("Memory Exhausted")
 }
 
 /// record one memory-limited run: spec correspondence + oracle against the unlimited nested loop join
 #[allow(clippy::too_many_arguments)]
-fn record_mem(run: &mut Run, opname: &str, tag: &str, got: &Result<String, String>, want: &str, req: &str, cfg: &str, nt: bool, inp: &Input) {
+fn record_mem(run: &mut Run, opname: &str, tag: &str, got: &Result<String, String>, want: &str, req: &str, cfg: &str, nt: bool) {
     match got {
         Err(e) if is_resources(e) => run.count(&format!("mem_{tag}_resources_exhausted")),
         Err(e) => {
@@ -383,22 +322,15 @@ fn record_mem(run: &mut Run, opname: &str, tag: &str, got: &Result<String, Strin
         }
         Ok(g) => {
             run.count(&format!("mem_{tag}_completed"));
-            // the known shape (notes/C05.md): the chunked nested loop join ends without the global
-            // right-side emission; everything else it produced is right
-            let known = tag == "nlj" && g != want && lost_exactly_right_final(inp, g, want);
-            let (op, name) = if known {
-                ("join.nlj_memlimit.skips_global_right_emission".to_string(), format!("{opname}[memory-limited: global right-side emission skipped]"))
-            } else {
-                (format!("join.{tag}_memlimit"), format!("{opname}[memory-limited]"))
-            };
-            run.case(&op, req, g, nt);
-            run.oracle(g == want, &format!("{name} vs NestedLoopJoinExec(unlimited) {cfg} {req}"), &format!("memory-limited `{g}`, unlimited `{want}`"));
+            run.case(&format!("join.{tag}_memlimit"), req, g, nt);
+            run.oracle(g == want, &format!("{opname}[memory-limited] vs NestedLoopJoinExec(unlimited) {cfg} {req}"), &format!("memory-limited `{g}`, unlimited `{want}`"));
         }
     }
 }
 
-/// the exact input of notes/external/nlj_two_left_batches_memory_limited.rs in this harness's schema:
-/// left = 2 batches of 2 rows, tiny memory limit, spilling on; runs first
+/// Directed case (runs first): the exact input of notes/external/nlj_two_left_batches_memory_limited.rs in
+/// this harness's schema — left = 2 batches of 2 rows, tiny memory limit, spilling on — on which the
+/// chunked fallback skipped the global right-side emission before /repo fix c1e5d66 (notes/C05.md)
 fn nlj_memlimit_directed(run: &mut Run, rt: &tokio::runtime::Runtime) {
     let ls = schema(["a", "b", "x"]);
     let rs = schema(["c", "d", "y"]);
@@ -413,7 +345,7 @@ fn nlj_memlimit_directed(run: &mut Run, rt: &tokio::runtime::Runtime) {
         let got = exec(rt, mk(), ctx_mem(16, 50, true));
         let req = inp.sexp(1, false, &[r.clone()]);
         run.count("mem_nlj_directed");
-        record_mem(run, "NestedLoopJoinExec", "nlj", &got, &want, &req, "limit=50 spill=true batch_size=16 left_batches=2x2 right_batches=2x2 directed", true, &inp);
+        record_mem(run, "NestedLoopJoinExec", "nlj", &got, &want, &req, "limit=50 spill=true batch_size=16 left_batches=2x2 right_batches=2x2 directed", true);
     }
 }
 
@@ -456,7 +388,7 @@ fn memory_limited(run: &mut Run, rng: &mut Rng, rt: &tokio::runtime::Runtime) {
                 if got.is_ok() && plan.metrics().and_then(|m| m.spill_count()).unwrap_or(0) > 0 {
                     run.count("mem_nlj_completed_after_chunked_fallback");
                 }
-                record_mem(run, "NestedLoopJoinExec", "nlj", &got, &want, &req, &cfg, nt, &inp);
+                record_mem(run, "NestedLoopJoinExec", "nlj", &got, &want, &req, &cfg, nt);
             }
             // sort-merge join over pre-sorted inputs (no SortExec: the budget is the join's alone)
             {
@@ -480,7 +412,7 @@ fn memory_limited(run: &mut Run, rng: &mut Rng, rt: &tokio::runtime::Runtime) {
                     if got.is_ok() && plan.metrics().and_then(|m| m.spill_count()).unwrap_or(0) > 0 {
                         run.count("mem_smj_completed_after_spilling");
                     }
-                    record_mem(run, "SortMergeJoinExec", "smj", &got, &want, &req, &cfg, nt, &inp);
+                    record_mem(run, "SortMergeJoinExec", "smj", &got, &want, &req, &cfg, nt);
                 }
             }
             // hash join, both modes
@@ -494,7 +426,7 @@ fn memory_limited(run: &mut Run, rng: &mut Rng, rt: &tokio::runtime::Runtime) {
                 };
                 let plan = HashJoinExec::try_new(lsrc, rsrc, inp.on(), inp.join_filter(), &inp.jt, None, mode, inp.null_eq(), false).unwrap();
                 let got = exec(rt, Arc::new(plan), ctx_mem(bsz, limit, spill));
-                record_mem(run, "HashJoinExec", tag, &got, &want, &req, &cfg, nt, &inp);
+                record_mem(run, "HashJoinExec", tag, &got, &want, &req, &cfg, nt);
             }
             // symmetric hash join
             if let Ok(plan) = SymmetricHashJoinExec::try_new(
@@ -509,7 +441,7 @@ fn memory_limited(run: &mut Run, rng: &mut Rng, rt: &tokio::runtime::Runtime) {
                 StreamJoinPartitionMode::SinglePartition,
             ) {
                 let got = exec(rt, Arc::new(plan), ctx_mem(bsz, limit, spill));
-                record_mem(run, "SymmetricHashJoinExec", "symmetric_hash", &got, &want, &req, &cfg, nt, &inp);
+                record_mem(run, "SymmetricHashJoinExec", "symmetric_hash", &got, &want, &req, &cfg, nt);
             }
         }
     }
